@@ -407,18 +407,29 @@ func c16routine(c *Ctx, rt *Routine) {
 				}
 			}
 		}
-		// no output send reachable from deferred calls
-		for _, d := range order {
+		// no output send reachable from a deferred call that runs after the output was closed (a final
+		// flush deferred by the entry before the close is the loop functions' own deferred flush moved
+		// up; its send is stop-aware or not by S1)
+		closedAt := -1
+		for i, d := range order {
+			if k, a := p.deferKind(d); k == "close" && a == "field:output" && closedAt < 0 {
+				closedAt = i
+			}
+		}
+		for i, d := range order {
+			if closedAt < 0 || i < closedAt {
+				continue
+			}
 			if callee := p.Callee(d); callee != nil && p.IsProduct(callee) {
 				for g := range p.Reach(callee) {
 					for _, op := range p.BlockingOps(g) {
 						if op.Kind == "send" && isOutputRole(op.Role) {
-							bad = append(bad, "output send reachable from deferred "+shortFn(p, callee))
+							bad = append(bad, "output send reachable from deferred "+shortFn(p, callee)+", which runs after the output was closed")
 						}
 						if op.Kind == "select" {
 							for _, cs := range op.Sel.Cases {
 								if cs.State.Dir == 1 && isOutputRole(p.chanRole(cs.State.Chan)) {
-									bad = append(bad, "output send reachable from deferred "+shortFn(p, callee))
+									bad = append(bad, "output send reachable from deferred "+shortFn(p, callee)+", which runs after the output was closed")
 								}
 							}
 						}
